@@ -685,15 +685,15 @@ class Gen:
                 d = self.expr(1, self.vars, self.funs, self.classes)
             out.append((nid, 'reg', d))
             nid += 1
+        # starred parameters get names no keyword of the program uses (the theorems' hypothesis kw_ok_prog)
         if rng.random() < 0.3:
-            out.append((nid, 'star', None))
-            nid += 1
+            out.append((50 + rng.randrange(3), 'star', None))
             for _ in range(rng.choice([0, 0, 1, 2])):
                 d = self.expr(1, self.vars, self.funs, self.classes) if rng.random() < 0.6 else None
                 out.append((nid, 'reg', d))
                 nid += 1
         if rng.random() < 0.2:
-            out.append((nid, 'sstar', None))
+            out.append((70 + rng.randrange(3), 'sstar', None))
         return out
 
     def candidate(self):
@@ -1086,6 +1086,7 @@ def core_stream(ctx, items, stats):
             gmeta.append(curm)
         kind = r['kind']
         stats['programs_' + kind] += 1
+        stats['programs_in_theorem_fragment'] += not kw_star_clash(r['prog'])
         stats['statements'] += len(r['prog'])
         pname = 'p%d' % pi
         pi += 1
